@@ -362,6 +362,29 @@ theorem proxStage_post (S : Spec n P ψ grad h dom) (hp : ParamOK pr) (hQ : QubM
 theorem nextX_acc (t tn : α) (x xh p : List α) :
     fista_nextX false t tn x xh p = vadd xh (smul ((t - 1) / tn) (vsub xh p)) := rfl
 
+/-- `advance` keeps the state consistent (new `x`, freshly evaluated `∇ψ(x)` / `ψ(x)`). -/
+theorem advance_cons (S : Spec n P ψ grad h dom) (s : St α) (eps : α) (hcons : TopCons n pr ψ grad s)
+    (hxlen : (fista_nextX pr.disableAcceleration s.t (fista_tNext s.t) s.curr.x s.curr.xhat s.prev).length = n) :
+    TopCons n pr ψ grad (advance P pr s eps) := by
+  have hxhl := hcons.xhlen
+  unfold advance
+  cases hf : fixedLip pr
+  · simp only [Bool.false_eq_true, if_false, evalPsiGradPsi]
+    exact { xlen := hxlen, xhlen := hxhl, hg := (S.psiGrad_eq _).2, hpsix := fun _ => (S.psiGrad_eq _).1,
+            hγ := hcons.hγ, hγL := hcons.hγL, hLfix := fun hc => by rw [hf] at hc; exact absurd hc (by decide) }
+  · simp only [if_true, evalGradPsi]
+    exact { xlen := hxlen, xhlen := hxhl, hg := S.gradPsi_eq _,
+            hpsix := fun hc => by rw [hf] at hc; exact absurd hc (by decide),
+            hγ := hcons.hγ, hγL := hcons.hγL, hLfix := fun _ => hcons.hLfix hf }
+
+theorem advance_fields (s : St α) (eps : α) :
+    (advance P pr s eps).t = fista_tNext s.t ∧ (advance P pr s eps).k = s.k + 1 ∧
+    (advance P pr s eps).curr.xhat = s.curr.xhat ∧ (advance P pr s eps).curr.gamma = s.curr.gamma ∧
+    (advance P pr s eps).curr.x =
+      fista_nextX pr.disableAcceleration s.t (fista_tNext s.t) s.curr.x s.curr.xhat s.prev := by
+  unfold advance
+  cases hf : fixedLip pr <;> simp [evalPsiGradPsi, evalGradPsi]
+
 /-- **Extrapolation step on the model**: `advance` turns `postQ` of pass `k` into `preQ` of pass
     `k+1` (equality, by `tNext_identity` and the code's extrapolation formula) and re-establishes
     the top-of-loop invariant. -/
@@ -386,23 +409,8 @@ theorem advance_top (S : Spec n P ψ grad h dom) (hsq : LawfulSqrt α)
       = toFn s.curr.xhat + ((s.t - 1) / fista_tNext s.t) • (toFn s.curr.xhat - toFn s.prev) := by
     rw [hacc, nextX_acc, toFn_vadd _ _ (by rw [hxhl, hlen2]), toFn_smul,
       toFn_vsub _ _ (by rw [hxhl, hprevl])]
-  have hcons' : TopCons n pr ψ grad (advance P pr s eps) := by
-    unfold advance
-    cases hf : fixedLip pr
-    · simp only [Bool.false_eq_true, if_false, evalPsiGradPsi]
-      exact { xlen := hxlen, xhlen := hxhl, hg := (S.psiGrad_eq _).2, hpsix := fun _ => (S.psiGrad_eq _).1,
-              hγ := hcons.hγ, hγL := hcons.hγL, hLfix := fun hc => by rw [hf] at hc; exact absurd hc (by decide) }
-    · simp only [if_true, evalGradPsi]
-      exact { xlen := hxlen, xhlen := hxhl, hg := S.gradPsi_eq _,
-              hpsix := fun hc => by rw [hf] at hc; exact absurd hc (by decide),
-              hγ := hcons.hγ, hγL := hcons.hγL, hLfix := fun _ => hcons.hLfix hf }
-  have hfields : (advance P pr s eps).t = fista_tNext s.t ∧ (advance P pr s eps).k = s.k + 1 ∧
-      (advance P pr s eps).curr.xhat = s.curr.xhat ∧ (advance P pr s eps).curr.gamma = s.curr.gamma ∧
-      (advance P pr s eps).curr.x =
-        fista_nextX pr.disableAcceleration s.t (fista_tNext s.t) s.curr.x s.curr.xhat s.prev := by
-    unfold advance
-    cases hf : fixedLip pr <;> simp [evalPsiGradPsi, evalGradPsi]
-  obtain ⟨e1, e2, e3, e4, e5⟩ := hfields
+  have hcons' : TopCons n pr ψ grad (advance P pr s eps) := advance_cons S s eps hcons hxlen
+  obtain ⟨e1, e2, e3, e4, e5⟩ := advance_fields (P := P) (pr := pr) s eps
   have hsq2 : (fista_tNext s.t) ^ 2 - fista_tNext s.t = s.t ^ 2 := hid
   refine { cons := hcons', ht := ?_, htk := ?_, hprev := ?_, hv := ?_, hQ := ?_ }
   · rw [e1]; exact htn1
@@ -465,21 +473,25 @@ theorem mainLoop_fuelOut_mono (stop : Nat → Bool) (oot : Bool) (x0 y Sig errz0
       simp only []
       rw [(headStep_curr P pr stop oot _).2.2.2.1]; exact h1
 
-/-- **Main induction**: every callback of the main loop satisfies the rate bound. -/
-theorem mainLoop_allOK (S : Spec n P ψ grad h dom) (hp : ParamOK pr) (hQ : QubMax n ψ grad pr.Lmax)
-    (T : Target n ψ h dom xs Fs) (hsq : LawfulSqrt α) (hacc : pr.disableAcceleration = false)
-    (stop : Nat → Bool) (oot : Bool) (x0 y Sig errz0 : List α) (D : α) (fuel : ℕ) (s : St α)
-    (hk : s.k ≤ pr.maxIter) (hfuel : pr.maxIter + 1 ≤ fuel + s.k)
-    (hinv : TopInv n pr ψ grad h dom xs Fs s (D + marginSum pr s.cbs))
-    (hok : AllOK pr ψ h Fs D s.cbs)
+/-- **Generic induction over the main loop**: a state invariant `Inv` (at the top of a pass) and a
+    property `Q` of the callback list (newest first) that are re-established by every pass hold
+    for the callbacks of the whole solve. -/
+theorem mainLoop_ind (stop : Nat → Bool) (oot : Bool) (x0 y Sig errz0 : List α)
+    (Inv : St α → Prop) (Q : List (Callback α) → Prop)
+    (hcb : ∀ s, Inv s → (proxStage P pr s).fuelOut = false → Q s.cbs → ∀ st e,
+      Q (mkCb (headStep P pr stop oot (proxStage P pr s)).1 st e :: s.cbs))
+    (hadv : ∀ s, Inv s → (proxStage P pr s).fuelOut = false → Q s.cbs →
+      Inv (advance P pr (headStep P pr stop oot (proxStage P pr s)).1
+        (headStep P pr stop oot (proxStage P pr s)).2.1))
+    (fuel : ℕ) (s : St α) (hk : s.k ≤ pr.maxIter) (hfuel : pr.maxIter + 1 ≤ fuel + s.k)
+    (hinv : Inv s) (hq : Q s.cbs)
     (hres : (mainLoop P pr stop oot x0 y Sig errz0 fuel s).fuelOut = false) :
-    AllOK pr ψ h Fs D (mainLoop P pr stop oot x0 y Sig errz0 fuel s).callbacks.reverse := by
+    Q (mainLoop P pr stop oot x0 y Sig errz0 fuel s).callbacks.reverse := by
   induction fuel generalizing s with
   | zero => omega
   | succ f ih =>
     unfold mainLoop at hres ⊢
     simp only [] at hres ⊢
-    -- the prox stage did not run out of model fuel
     have hfo : (proxStage P pr s).fuelOut = false := by
       cases hb : (proxStage P pr s).fuelOut
       · rfl
@@ -494,70 +506,90 @@ theorem mainLoop_allOK (S : Spec n P ψ grad h dom) (hp : ParamOK pr) (hQ : QubM
             unfold advance; simp only []; exact h1
           rw [mainLoop_fuelOut_mono stop oot x0 y Sig errz0 f _ h2] at hres
           exact absurd hres (by decide)
-    obtain ⟨hpost, hv', hdom', hxhl'⟩ := proxStage_post S hp hQ T s _ hinv hfo
-    obtain ⟨hst, hγle, _, hprev, ht, hks⟩ := proxStage_stepped (pr := pr) S s hinv.cons
     have hhc := headStep_curr P pr stop oot (proxStage P pr s)
-    -- the callback of this pass and its margin
-    have hmargin : ∀ (st : SolverStatus) (e : α),
-        marginSum pr (mkCb (headStep P pr stop oot (proxStage P pr s)).1 st e :: s.cbs)
-          = marginSum pr s.cbs + 2 * (proxStage P pr s).curr.gamma * s.t ^ 2 * marginQ pr (ψ s.curr.x) := by
-      intro st e
-      unfold marginSum cbMargin marginQ mkCb
-      simp only [List.map_cons, List.sum_cons, hhc.1, hhc.2.2.2.2.1, ht]
-      cases hf : fixedLip pr
-      · simp only [Bool.false_eq_true, if_false]
-        rw [hst.hpsix hf]; ring
-      · simp only [if_true]; ring
-    have hrate : ∀ (st : SolverStatus) (e : α),
-        Rate ψ h Fs D (marginSum pr (mkCb (headStep P pr stop oot (proxStage P pr s)).1 st e :: s.cbs))
-          (mkCb (headStep P pr stop oot (proxStage P pr s)).1 st e) := by
-      intro st e
-      rw [hmargin]
-      unfold Rate mkCb
-      simp only [hhc.1, hhc.2.1, hks]
-      unfold postQ at hpost
-      rw [ht] at hpost
-      exact rate_of_post hst.hγ hinv.htk hv' ((isIP_ipN n).nonneg _) (by linarith)
+    have hQ' := hcb s hinv hfo hq
     split_ifs at hres ⊢ with hb
-    · -- exit at this head
-      rw [exitBlock_callbacks, List.reverse_reverse, hhc.2.2.1, (proxStage_k P pr s).2.1]
-      exact ⟨hrate _ _, hok⟩
-    · -- Busy: callback, extrapolation, next pass
-      have hbusy : (headStep P pr stop oot (proxStage P pr s)).2.2 = .Busy := by
+    · rw [exitBlock_callbacks, List.reverse_reverse, hhc.2.2.1, (proxStage_k P pr s).2.1]
+      exact hQ' _ _
+    · have hbusy : (headStep P pr stop oot (proxStage P pr s)).2.2 = .Busy := by
         simpa using hb
       have hkne := headStep_busy_k P pr stop oot _ hbusy
       rw [(proxStage_k P pr s).1] at hkne
-      have hcons' : TopCons n pr ψ grad (headStep P pr stop oot (proxStage P pr s)).1 := by
-        have hx : (proxStage P pr s).curr.x = s.curr.x := hst.hx
-        exact { xlen := by rw [hhc.1, hx]; exact hinv.cons.xlen,
-                xhlen := by rw [hhc.1]; exact hxhl',
-                hg := by rw [hhc.1, hst.hg, hx],
-                hpsix := fun hf => by rw [hhc.1, hst.hpsix hf, hx],
-                hγ := by rw [hhc.1]; exact hst.hγ, hγL := by rw [hhc.1]; exact hst.hγL,
-                hLfix := fun hf => by rw [hhc.1]; exact hst.hLfix hf }
-      have hadv := advance_top (xs := xs) (Fs := Fs) S hsq hacc (headStep P pr stop oot (proxStage P pr s)).1
-        (headStep P pr stop oot (proxStage P pr s)).2.1
-        (D + marginSum pr (advance P pr (headStep P pr stop oot (proxStage P pr s)).1
-          (headStep P pr stop oot (proxStage P pr s)).2.1).cbs) hcons'
-        (by rw [hhc.2.2.2.2.1, ht]; exact hinv.ht)
-        (by rw [hhc.2.2.2.2.1, hhc.2.1, ht, hks]; exact hinv.htk)
-        (by rw [hhc.2.2.2.2.2, hprev]; exact hinv.cons.xhlen)
-        (by rw [hhc.1]; exact hdom') (by rw [hhc.1]; exact hv')
-        (by
-          have : postQ n ψ h xs Fs (headStep P pr stop oot (proxStage P pr s)).1
-              = postQ n ψ h xs Fs (proxStage P pr s) := by
-            unfold postQ; rw [hhc.1, hhc.2.2.2.2.1, hhc.2.2.2.2.2]
-          rw [this]
-          rw [advance_cbs, hhc.2.2.1, (proxStage_k P pr s).2.1, hmargin]
-          linarith)
-      apply ih _ _ _ hadv
-      · -- AllOK of the extended callback list
-        rw [advance_cbs, hhc.2.2.1, (proxStage_k P pr s).2.1]
-        exact ⟨hrate _ _, hok⟩
+      apply ih _ _ _ (hadv s hinv hfo hq)
+      · rw [advance_cbs, hhc.2.2.1, (proxStage_k P pr s).2.1]
+        exact hQ' _ _
       · exact hres
       · rw [(advance_k _ _ _ _).1, hhc.2.1, (proxStage_k P pr s).1]; omega
       · rw [(advance_k _ _ _ _).1, hhc.2.1, (proxStage_k P pr s).1]; omega
 
+/-- consistency of the state handed to `advance` (after the prox stage and the head check) -/
+theorem head_topCons (S : Spec n P ψ grad h dom) (stop : Nat → Bool) (oot : Bool) (s : St α)
+    (hcons : TopCons n pr ψ grad s) :
+    TopCons n pr ψ grad (headStep P pr stop oot (proxStage P pr s)).1 := by
+  obtain ⟨hst, _, _, _, _, _⟩ := proxStage_stepped (pr := pr) S s hcons
+  have hhc := headStep_curr P pr stop oot (proxStage P pr s)
+  have hx : (proxStage P pr s).curr.x = s.curr.x := hst.hx
+  exact { xlen := by rw [hhc.1, hx]; exact hcons.xlen,
+          xhlen := by rw [hhc.1]; exact stepped_xhat_len S hcons.xlen hst,
+          hg := by rw [hhc.1, hst.hg, hx],
+          hpsix := fun hf => by rw [hhc.1, hst.hpsix hf, hx],
+          hγ := by rw [hhc.1]; exact hst.hγ, hγL := by rw [hhc.1]; exact hst.hγL,
+          hLfix := fun hf => by rw [hhc.1]; exact hst.hLfix hf }
+
+/-- margin bookkeeping: the callback built from the state after the prox stage contributes
+    `2γₖtₖ²·marginQ(ψ(xₖ))` -/
+theorem marginSum_cons (S : Spec n P ψ grad h dom) (stop : Nat → Bool) (oot : Bool) (s : St α)
+    (hcons : TopCons n pr ψ grad s) (st : SolverStatus) (e : α) :
+    marginSum pr (mkCb (headStep P pr stop oot (proxStage P pr s)).1 st e :: s.cbs)
+      = marginSum pr s.cbs + 2 * (proxStage P pr s).curr.gamma * s.t ^ 2 * marginQ pr (ψ s.curr.x) := by
+  obtain ⟨hst, _, _, _, ht, _⟩ := proxStage_stepped (pr := pr) S s hcons
+  have hhc := headStep_curr P pr stop oot (proxStage P pr s)
+  unfold marginSum cbMargin marginQ mkCb
+  simp only [List.map_cons, List.sum_cons, hhc.1, hhc.2.2.2.2.1, ht]
+  cases hf : fixedLip pr
+  · simp only [Bool.false_eq_true, if_false]
+    rw [hst.hpsix hf]; ring
+  · simp only [if_true]; ring
+
+/-- **Main induction**: every callback of the main loop satisfies the rate bound. -/
+theorem mainLoop_allOK (S : Spec n P ψ grad h dom) (hp : ParamOK pr) (hQ : QubMax n ψ grad pr.Lmax)
+    (T : Target n ψ h dom xs Fs) (hsq : LawfulSqrt α) (hacc : pr.disableAcceleration = false)
+    (stop : Nat → Bool) (oot : Bool) (x0 y Sig errz0 : List α) (D : α) (fuel : ℕ) (s : St α)
+    (hk : s.k ≤ pr.maxIter) (hfuel : pr.maxIter + 1 ≤ fuel + s.k)
+    (hinv : TopInv n pr ψ grad h dom xs Fs s (D + marginSum pr s.cbs))
+    (hok : AllOK pr ψ h Fs D s.cbs)
+    (hres : (mainLoop P pr stop oot x0 y Sig errz0 fuel s).fuelOut = false) :
+    AllOK pr ψ h Fs D (mainLoop P pr stop oot x0 y Sig errz0 fuel s).callbacks.reverse := by
+  refine mainLoop_ind stop oot x0 y Sig errz0
+    (fun s => TopInv n pr ψ grad h dom xs Fs s (D + marginSum pr s.cbs)) (AllOK pr ψ h Fs D)
+    ?_ ?_ fuel s hk hfuel hinv hok hres
+  · -- the callback of a pass satisfies the rate bound
+    intro s hinv hfo hok st e
+    obtain ⟨hpost, hv', _, _⟩ := proxStage_post S hp hQ T s _ hinv hfo
+    obtain ⟨hst, _, _, _, ht, hks⟩ := proxStage_stepped (pr := pr) S s hinv.cons
+    have hhc := headStep_curr P pr stop oot (proxStage P pr s)
+    refine ⟨?_, hok⟩
+    rw [marginSum_cons S stop oot s hinv.cons]
+    unfold Rate mkCb
+    simp only [hhc.1, hhc.2.1, hks]
+    unfold postQ at hpost
+    rw [ht] at hpost
+    exact rate_of_post hst.hγ hinv.htk hv' ((isIP_ipN n).nonneg _) (by linarith)
+  · -- extrapolation re-establishes the invariant
+    intro s hinv hfo _
+    obtain ⟨hpost, hv', hdom', _⟩ := proxStage_post S hp hQ T s _ hinv hfo
+    obtain ⟨_, _, _, hprev, ht, hks⟩ := proxStage_stepped (pr := pr) S s hinv.cons
+    have hhc := headStep_curr P pr stop oot (proxStage P pr s)
+    refine advance_top (xs := xs) (Fs := Fs) S hsq hacc _ _ _ (head_topCons S stop oot s hinv.cons)
+      (by rw [hhc.2.2.2.2.1, ht]; exact hinv.ht)
+      (by rw [hhc.2.2.2.2.1, hhc.2.1, ht, hks]; exact hinv.htk)
+      (by rw [hhc.2.2.2.2.2, hprev]; exact hinv.cons.xhlen)
+      (by rw [hhc.1]; exact hdom') (by rw [hhc.1]; exact hv') ?_
+    have : postQ n ψ h xs Fs (headStep P pr stop oot (proxStage P pr s)).1
+        = postQ n ψ h xs Fs (proxStage P pr s) := by
+      unfold postQ; rw [hhc.1, hhc.2.2.2.2.1, hhc.2.2.2.2.2]
+    rw [this, advance_cbs, hhc.2.2.1, (proxStage_k P pr s).2.1, marginSum_cons S stop oot s hinv.cons]
+    linarith
 
 /-! ### Initial state -/
 
@@ -572,7 +604,7 @@ theorem eclamp_ge_lo (v lo hi : α) (h : lo ≤ hi) : lo ≤ eclamp v lo hi := b
 theorem initState_top (S : Spec n P ψ grad h dom) (hp : ParamOK pr) (x0 gV : List α) (nan : α)
     (hx0 : x0.length = n) (s : St α) (hi : initState P pr x0 gV nan = .inr s) :
     TopInv n pr ψ grad h dom xs Fs s (ipN n (toFn x0 - toFn xs) (toFn x0 - toFn xs)) ∧
-    s.k = 0 ∧ s.cbs = [] := by
+    s.k = 0 ∧ s.cbs = [] ∧ s.t = 1 ∧ s.curr.x = x0 := by
   have hLmax : 0 < pr.Lmax := lt_of_lt_of_le hp.lmin_pos hp.lmin_le
   -- the iterate built by `initIterate`
   have hit : (initIterate P pr x0 gV nan).1.x = x0 ∧ (initIterate P pr x0 gV nan).1.xhat.length = n ∧
@@ -609,11 +641,167 @@ theorem initState_top (S : Spec n P ψ grad h dom) (hp : ParamOK pr) (x0 gV : Li
                            hγL := by simp only [fista_gammaInit]; exact div_mul_cancel₀ _ h5.ne',
                            hLfix := h6 },
                  ht := le_refl _, htk := by simp, hprev := fun hc => absurd hc (lt_irrefl _),
-                 hv := by simp, hQ := ?_ }, rfl, rfl⟩
+                 hv := by simp, hQ := ?_ }, rfl, rfl, rfl, h1⟩
        unfold preQ
        simp only [h1, one_pow, sub_self, mul_zero, zero_mul, zero_add, one_smul, zero_smul, sub_zero]
        exact le_refl _)
     | (exact absurd hi (by simp))
+
+
+/-! ### Acceleration disabled (`disable_acceleration`): proximal gradient on the model -/
+
+/-- per-step rounding margin of the reported iterate -/
+def cbM (pr : Params α) (cb : Callback α) : α :=
+  if fixedLip pr then 0 else (1 + |cb.it.psix|) * pr.qubTol
+
+def marginSumPg (pr : Params α) (cbs : List (Callback α)) : α :=
+  (cbs.map fun cb => 2 * cb.it.gamma * ((cb.k : α) + 1) * cbM pr cb).sum
+
+/-- the O(1/k) bound for one reported iterate -/
+def RatePg (ψ h : List α → α) (Fs D M : α) (cb : Callback α) : Prop :=
+  ψ cb.it.xhat + h cb.it.xhat - Fs ≤ (D + M) / (2 * cb.it.gamma * ((cb.k : α) + 1))
+
+/-- newest first: every callback satisfies the O(1/k) bound with the margin accumulated up to it,
+    and `F` does not increase (beyond the step's margin) from one callback to the next -/
+def AllOKPg (pr : Params α) (ψ h : List α → α) (Fs D : α) : List (Callback α) → Prop
+  | [] => True
+  | cb :: rest =>
+    RatePg ψ h Fs D (marginSumPg pr (cb :: rest)) cb ∧
+    (∀ cb', rest.head? = some cb' →
+      ψ cb.it.xhat + h cb.it.xhat ≤ ψ cb'.it.xhat + h cb'.it.xhat + cbM pr cb) ∧
+    AllOKPg pr ψ h Fs D rest
+
+structure TopInvPg (n : ℕ) (pr : Params α) (ψ : List α → α) (grad : List α → List α) (h : List α → α)
+    (dom : List α → Prop) (xs : List α) (Fs : α) (s : St α) (R : α) : Prop where
+  cons : TopCons n pr ψ grad s
+  hprev : s.k ≠ 0 → s.curr.x = s.curr.xhat ∧ dom s.curr.xhat
+  hhead : ∀ cb', s.cbs.head? = some cb' → cb'.it.xhat = s.curr.xhat ∧ s.k ≠ 0
+  hv : 0 ≤ (s.k : α) * (ψ s.curr.xhat + h s.curr.xhat - Fs)
+  hQ : 2 * s.curr.gamma * (s.k : α) * (ψ s.curr.xhat + h s.curr.xhat - Fs)
+        + ipN n (toFn s.curr.x - toFn xs) (toFn s.curr.x - toFn xs) ≤ R
+
+/-- One pass with acceleration disabled: `2γₖ(k+1)(F(x̂ₖ)−F⋆) + ‖x̂ₖ−x⋆‖²` grows by at most the
+    margin, and `F(x̂ₖ) ≤ F(x̂ₖ₋₁) + marginₖ`. -/
+theorem proxStage_postPg (S : Spec n P ψ grad h dom) (hp : ParamOK pr) (hQ : QubMax n ψ grad pr.Lmax)
+    (T : Target n ψ h dom xs Fs) (s : St α) (R : α) (hs : TopInvPg n pr ψ grad h dom xs Fs s R)
+    (hfo : (proxStage P pr s).fuelOut = false) :
+    2 * (proxStage P pr s).curr.gamma * ((s.k : α) + 1)
+          * (ψ (proxStage P pr s).curr.xhat + h (proxStage P pr s).curr.xhat - Fs)
+        + ipN n (toFn (proxStage P pr s).curr.xhat - toFn xs) (toFn (proxStage P pr s).curr.xhat - toFn xs)
+      ≤ R + 2 * (proxStage P pr s).curr.gamma * ((s.k : α) + 1) * marginQ pr (ψ s.curr.x) ∧
+    0 ≤ ψ (proxStage P pr s).curr.xhat + h (proxStage P pr s).curr.xhat - Fs ∧
+    dom (proxStage P pr s).curr.xhat ∧ (proxStage P pr s).curr.xhat.length = n ∧
+    (s.k ≠ 0 → ψ (proxStage P pr s).curr.xhat + h (proxStage P pr s).curr.xhat
+        ≤ ψ s.curr.xhat + h s.curr.xhat + marginQ pr (ψ s.curr.x)) := by
+  obtain ⟨hst, hγle, hacc, _, _, _⟩ := proxStage_stepped (pr := pr) S s hs.cons
+  have hacc := hacc hfo
+  have hxl := hs.cons.xlen
+  have hxhl := stepped_xhat_len S hxl hst
+  have hdom : dom (proxStage P pr s).curr.xhat := by
+    rw [hst.hxhat]; exact S.prox_dom _ _ _ hxl (S.grad_len _ hxl)
+  have hv' : 0 ≤ ψ (proxStage P pr s).curr.xhat + h (proxStage P pr s).curr.xhat - Fs := by
+    have := T.Fs_min _ hdom hxhl; linarith
+  have h3s := stepped_three_point S hp hQ hxl hst hacc xs T.xs_dom T.xs_len
+  rw [← T.Fs_eq] at h3s
+  have hb := lyapunov_base (isIP_ipN n) h3s
+  have hmono : s.k ≠ 0 → ψ (proxStage P pr s).curr.xhat + h (proxStage P pr s).curr.xhat
+      ≤ ψ s.curr.xhat + h s.curr.xhat + marginQ pr (ψ s.curr.x) := by
+    intro hk
+    obtain ⟨hxeq, hxd⟩ := hs.hprev hk
+    have h3x := stepped_three_point S hp hQ hxl hst hacc s.curr.x (by rw [hxeq]; exact hxd) hxl
+    have := pg_descent (isIP_ipN n) hst.hγ h3x
+    have e : ψ s.curr.x + h s.curr.x = ψ s.curr.xhat + h s.curr.xhat := by rw [hxeq]
+    linarith
+  refine ⟨?_, hv', hdom, hxhl, hmono⟩
+  have hpre := hs.hQ
+  have hm := marginQ_nonneg pr hp (ψ s.curr.x)
+  have hγ' := hst.hγ
+  have hk0 : (0 : α) ≤ (s.k : α) := Nat.cast_nonneg _
+  by_cases hk : s.k = 0
+  · simp only [hk, Nat.cast_zero, mul_zero, zero_mul, zero_add, mul_one] at hpre ⊢
+    linarith
+  · have hm1 := hmono hk
+    have a1 : (s.k : α) * (ψ (proxStage P pr s).curr.xhat + h (proxStage P pr s).curr.xhat - Fs)
+        ≤ (s.k : α) * (ψ s.curr.xhat + h s.curr.xhat - Fs + marginQ pr (ψ s.curr.x)) :=
+      mul_le_mul_of_nonneg_left (by linarith) hk0
+    have a2 : (proxStage P pr s).curr.gamma * ((s.k : α) * (ψ s.curr.xhat + h s.curr.xhat - Fs))
+        ≤ s.curr.gamma * ((s.k : α) * (ψ s.curr.xhat + h s.curr.xhat - Fs)) :=
+      mul_le_mul_of_nonneg_right hγle hs.hv
+    nlinarith [mul_le_mul_of_nonneg_left a1 hγ'.le]
+
+theorem nextX_noacc (t tn : α) (x xh p : List α) : fista_nextX true t tn x xh p = xh := rfl
+
+/-- **Main induction, acceleration disabled.** -/
+theorem mainLoop_allOKPg (S : Spec n P ψ grad h dom) (hp : ParamOK pr) (hQ : QubMax n ψ grad pr.Lmax)
+    (T : Target n ψ h dom xs Fs) (hacc : pr.disableAcceleration = true)
+    (stop : Nat → Bool) (oot : Bool) (x0 y Sig errz0 : List α) (D : α) (fuel : ℕ) (s : St α)
+    (hk : s.k ≤ pr.maxIter) (hfuel : pr.maxIter + 1 ≤ fuel + s.k)
+    (hinv : TopInvPg n pr ψ grad h dom xs Fs s (D + marginSumPg pr s.cbs))
+    (hok : AllOKPg pr ψ h Fs D s.cbs)
+    (hres : (mainLoop P pr stop oot x0 y Sig errz0 fuel s).fuelOut = false) :
+    AllOKPg pr ψ h Fs D (mainLoop P pr stop oot x0 y Sig errz0 fuel s).callbacks.reverse := by
+  have hmsum : ∀ (s : St α) (hcons : TopCons n pr ψ grad s) (st : SolverStatus) (e : α),
+      marginSumPg pr (mkCb (headStep P pr stop oot (proxStage P pr s)).1 st e :: s.cbs)
+        = marginSumPg pr s.cbs
+          + 2 * (proxStage P pr s).curr.gamma * ((s.k : α) + 1) * marginQ pr (ψ s.curr.x) ∧
+      cbM pr (mkCb (headStep P pr stop oot (proxStage P pr s)).1 st e) = marginQ pr (ψ s.curr.x) := by
+    intro s hcons st e
+    obtain ⟨hst, _, _, _, _, hks⟩ := proxStage_stepped (pr := pr) S s hcons
+    have hhc := headStep_curr P pr stop oot (proxStage P pr s)
+    unfold marginSumPg cbM marginQ mkCb
+    simp only [List.map_cons, List.sum_cons, hhc.1, hhc.2.1, hks]
+    cases hf : fixedLip pr
+    · simp only [Bool.false_eq_true, if_false]
+      rw [hst.hpsix hf]; exact ⟨by ring, rfl⟩
+    · simp only [if_true]; exact ⟨by ring, trivial⟩
+  refine mainLoop_ind stop oot x0 y Sig errz0
+    (fun s => TopInvPg n pr ψ grad h dom xs Fs s (D + marginSumPg pr s.cbs)) (AllOKPg pr ψ h Fs D)
+    ?_ ?_ fuel s hk hfuel hinv hok hres
+  · intro s hinv hfo hok st e
+    obtain ⟨hpost, hv', _, _, hmono⟩ := proxStage_postPg S hp hQ T s _ hinv hfo
+    obtain ⟨hst, _, _, _, _, hks⟩ := proxStage_stepped (pr := pr) S s hinv.cons
+    have hhc := headStep_curr P pr stop oot (proxStage P pr s)
+    refine ⟨?_, ?_, hok⟩
+    · rw [(hmsum s hinv.cons st e).1]
+      unfold RatePg mkCb
+      simp only [hhc.1, hhc.2.1, hks]
+      have hk1 : (0 : α) < (s.k : α) + 1 := by positivity
+      rw [le_div_iff₀ (by have := hst.hγ; positivity)]
+      nlinarith [(isIP_ipN (α := α) n).nonneg (toFn (proxStage P pr s).curr.xhat - toFn xs)]
+    · intro cb' hcb'
+      obtain ⟨hx, hk⟩ := hinv.hhead cb' hcb'
+      rw [(hmsum s hinv.cons st e).2]
+      have := hmono hk
+      simp only [mkCb, hhc.1]
+      rw [hx]; exact this
+  · intro s hinv hfo _
+    obtain ⟨hpost, hv', hdom', hxhl', _⟩ := proxStage_postPg S hp hQ T s _ hinv hfo
+    obtain ⟨_, _, _, _, _, hks⟩ := proxStage_stepped (pr := pr) S s hinv.cons
+    have hhc := headStep_curr P pr stop oot (proxStage P pr s)
+    have hcons' := head_topCons S stop oot s hinv.cons
+    obtain ⟨e1, e2, e3, e4, e5⟩ := advance_fields (P := P) (pr := pr)
+      (headStep P pr stop oot (proxStage P pr s)).1 (headStep P pr stop oot (proxStage P pr s)).2.1
+    rw [hacc, nextX_noacc] at e5
+    have hxlen : (fista_nextX pr.disableAcceleration (headStep P pr stop oot (proxStage P pr s)).1.t
+        (fista_tNext (headStep P pr stop oot (proxStage P pr s)).1.t)
+        (headStep P pr stop oot (proxStage P pr s)).1.curr.x
+        (headStep P pr stop oot (proxStage P pr s)).1.curr.xhat
+        (headStep P pr stop oot (proxStage P pr s)).1.prev).length = n := by
+      rw [hacc, nextX_noacc, hhc.1]; exact hxhl'
+    refine { cons := advance_cons S _ _ hcons' hxlen, hprev := ?_, hhead := ?_, hv := ?_, hQ := ?_ }
+    · intro _
+      rw [e5, e3, hhc.1]; exact ⟨rfl, hdom'⟩
+    · intro cb' hcb'
+      rw [advance_cbs] at hcb'
+      simp only [List.head?_cons, Option.some.injEq] at hcb'
+      subst hcb'
+      rw [e3, e2]
+      exact ⟨rfl, Nat.succ_ne_zero _⟩
+    · rw [e2, e3, hhc.1]; exact mul_nonneg (by positivity) hv'
+    · rw [e2, e3, e4, e5, hhc.1, hhc.2.1, hks, advance_cbs, hhc.2.2.1, (proxStage_k P pr s).2.1,
+        (hmsum s hinv.cons _ _).1]
+      push_cast
+      linarith
 
 end
 
